@@ -264,7 +264,8 @@ class HistWorld(World):
             # a group whose state was never touched is the virgin (all-zero) state, whether or not its array exists yet
             return {str(k): np.array(v) for k, v in z.items() if np.any(np.array(v))}
         if self.type == "PhaseField" and self.params["solver"] == "History" and not self.ctx.avoids("pf-history-not-restored"):
-            return {"H": np.array(simlib.priv(sim, "_PhaseField__old_psiP_e_pg"))}
+            H = simlib.priv(sim, "_PhaseField__old_psiP_e_pg")
+            return {"H": {str(k): np.array(v) for k, v in H.items()} if isinstance(H, dict) else np.array(H)}
         return {}
 
     def _live_digest_nodisk(self):
